@@ -237,9 +237,15 @@ def _deep(events):
 
 
 def _table_recv(ev, t):
+    """`t` is (a view of) the resource table itself, not of something stored in it."""
     from . import semq as Q
-    f_, i_, base = Q.table_access(ev, t)
-    return Q.crate_fields(f_)[-1:] == [(A.WORLD, "resources")]
+    s = Q.strip(ev, t)
+    return isinstance(s, tuple) and s[0] == "field" and s[2] == "resources" and s[3] == A.WORLD
+
+
+def _downcasts(facts):
+    return [b.key for b in facts.bodies.values() if not b.is_closure and b.name in ("downcast", "downcast_ref", "downcast_mut", "downcast_unchecked",
+                                                                                     "downcast_ref_unchecked", "downcast_mut_unchecked")]
 
 
 def outcome(ctx, report, rule, facts, config):
@@ -539,59 +545,93 @@ def insert_rules(ctx, report, rule, facts, config):
                 report.ob(rule, "stores/%s/%s" % (b.qname, c.name), False, "unaudited insertion into the resource table through `%s`" % c.name, site=b.loc(bb), config=config)
     report.floor(rule, "insertions into the resource table", n, 3, config=config)
     # wrappers use the id of their own type
+    from . import semq as Q
+    RNEW = A.RESID + "::new"
     for name, raw, extra in (("insert", "insert_by_id", 1), ("remove", "remove_by_id", 0), ("has_value", "has_value_raw", 0), ("get_mut", "get_mut_raw", 0)):
         b = facts.one(A.WORLD + "::" + name)
+        rb = facts.one(A.WORLD + "::" + raw)
         report.touched(b, config)
-        bt = prog.bt(b)
-        cs = [bb for bb, t in b.normal_calls() if Callee(t["func"]).name == raw and Callee(t["func"]).self_head == A.WORLD]
-        ok = len(cs) == 1
-        if ok:
-            a = bt.call_args(cs[0])
-            gens = [g["name"] for g in b.raw.get("generics", []) if g["kind"] == "ty"]
-            ok = a[0] == SELF and a[1][0] == "call" and bt.callee(a[1][1]).name == "new" and bt.callee(a[1][1]).self_head == A.RESID and _type_args(bt.callee(a[1][1])) == gens[:1]
-            if ok and raw in ("insert_by_id", "remove_by_id"):
-                ok = _type_args(bt.callee(cs[0])) == gens[:1]
-            if ok and extra:
-                ok = a[2] == ("param", 2)
+        gens = [g["name"] for g in b.raw.get("generics", []) if g["kind"] == "ty"]
+        ev, ends = Q.sem(ctx, facts, b, opaque=[rb.key, RNEW])
+        rets = [e for e in ends if e.kind == "return"]
+        ok = bool(rets)
+        for e in rets:
+            cs = [x for x in _deep(e.path.events) if x[0] == "call" and x[2].key == rb.key]
+            if len(cs) != 1:
+                ok = False
+                continue
+            a = cs[0][3]
+            k = Q.strip(ev, a[1])
+            good = a[0] == SELF and Q.is_call(ev, k, "new") and Q.callee_of(ev, k).self_head == A.RESID and ev.targs(k) == gens[:1]
+            if good and raw in ("insert_by_id", "remove_by_id"):
+                good = ev.targs(cs[0][4])[:1] == gens[:1]
+            if good and extra:
+                good = Q.strip(ev, a[2]) == ("param", 2)
+            ok = ok and good
         report.ob(rule, "wrapper/%s" % name, ok, "%s::<T>() = %s(ResourceId::new::<T>(), ..)" % (name, raw) if ok else "%s does not use the id of its own type" % name, site=b.loc(), config=config)
     # raw operations use their id parameter as the key
     for name, op in (("has_value_raw", "contains_key"), ("try_fetch_by_id", "get"), ("try_fetch_mut_by_id", "get"), ("remove_by_id", "remove"),
                      ("get_mut_raw", "get_mut"), ("try_fetch_internal", "get")):
         b = facts.one(A.WORLD + "::" + name)
-        bt = prog.bt(b)
-        cs = [bb for bb, t in b.normal_calls() if Callee(t["func"]).name == op and "HashMap" in Callee(t["func"]).path]
-        ok = len(cs) == 1 and bt.call_args(cs[0])[1] == ("param", 2)
+        ev, ends = Q.sem(ctx, facts, b, opaque=[A.RESID + "::assert_same_type_id", RNEW])
+        ok = False
+        n_paths = 0
+        bad = False
+        for e in ends:
+            cs = [x for x in _deep(e.path.events) if x[0] == "call" and x[2].name == op and not x[2].local and _table_recv(ev, x[3][0])]
+            others = [x for x in _deep(e.path.events) if x[0] == "call" and not x[2].local and x[2].name in ("get", "get_mut", "remove", "contains_key", "insert", "entry") and x[3] and _table_recv(ev, x[3][0]) and x not in cs]
+            if e.kind == "return":
+                n_paths += 1
+                if len(cs) != 1 or Q.strip(ev, cs[0][3][1]) != ("param", 2) or others:
+                    bad = True
+        ok = n_paths >= 1 and not bad
         report.ob(rule, "key/%s" % name, ok, "%s(&id)" % op if ok else "%s does not use its id parameter as the key" % name, site=b.loc(), config=config)
     for name in ("try_fetch", "try_fetch_mut"):
         b = facts.one(A.WORLD + "::" + name)
-        bt = prog.bt(b)
-        cs = [bb for bb, t in b.normal_calls() if Callee(t["func"]).name == "get" and "HashMap" in Callee(t["func"]).path]
-        ok = len(cs) == 1
-        if ok:
-            k = bt.call_args(cs[0])[1]
-            ok = k[0] == "call" and bt.callee(k[1]).name == "new" and bt.callee(k[1]).self_head == A.RESID and _type_args(bt.callee(k[1])) == ["T"]
+        ev, ends = Q.sem(ctx, facts, b, opaque=[A.RESID + "::assert_same_type_id", RNEW])
+        n_paths = 0
+        bad = False
+        for e in ends:
+            if e.kind != "return":
+                continue
+            n_paths += 1
+            cs = [x for x in _deep(e.path.events) if x[0] == "call" and x[2].name == "get" and not x[2].local and _table_recv(ev, x[3][0])]
+            if len(cs) != 1:
+                bad = True
+                continue
+            k = Q.strip(ev, cs[0][3][1])
+            if not (Q.is_call(ev, k, "new") and Q.callee_of(ev, k).self_head == A.RESID and ev.targs(k) == ["T"]):
+                bad = True
+        ok = n_paths >= 1 and not bad
         report.ob(rule, "key/%s" % name, ok, "get(&ResourceId::new::<T>())" if ok else "%s looks the resource up under another key" % name, site=b.loc(), config=config)
-    # ResourceId constructors wire the fields
-    b = facts.one(A.RESID + "::from_type_id_and_dynamic_id")
-    ret = prog.bt(b).local(0)
-    ok = ret[0] == "agg" and ret[2] == A.RESID + "::ResourceId" and dict(zip(ret[4], ret[3])) == {"type_id": ("param", 1), "dynamic_id": ("param", 2)}
+    # ResourceId constructors wire the fields: whichever way they delegate to each other, the value they build is
+    # ResourceId { type_id: <the given / the type's id>, dynamic_id: <the given / 0> }
+    def built(qname):
+        b_ = facts.one(qname)
+        ev_, ends_ = Q.sem(ctx, facts, b_)
+        rets_ = [e for e in ends_ if e.kind == "return"]
+        if len(rets_) != 1 or [e for e in ends_ if e.kind == "diverge"]:
+            return b_, ev_, None
+        r = rets_[0].ret
+        if not (r[0] == "agg" and r[2] == A.RESID + "::ResourceId"):
+            return b_, ev_, None
+        return b_, ev_, dict(zip(r[4], r[3]))
+
+    def is_of(ev_, x, ty):
+        return Q.is_call(ev_, x, "of") and "TypeId" in Q.callee_of(ev_, x).path and ev_.targs(x) == [ty]
+
+    b, ev, f_ = built(A.RESID + "::from_type_id_and_dynamic_id")
+    ok = f_ is not None and f_ == {"type_id": ("param", 1), "dynamic_id": ("param", 2)}
     report.ob(rule, "ResourceId/from_type_id_and_dynamic_id", ok, "ResourceId { type_id, dynamic_id }", site=b.loc(), config=config)
-    b = facts.one(A.RESID + "::new_with_dynamic_id")
-    bt = prog.bt(b)
-    ret = bt.local(0)
-    ok = (ret[0] == "call" and bt.callee(ret[1]).name == "from_type_id_and_dynamic_id" and ret[2][1] == ("param", 1) and ret[2][0][0] == "call"
-          and bt.callee(ret[2][0][1]).name == "of" and "TypeId" in bt.callee(ret[2][0][1]).path and _type_args(bt.callee(ret[2][0][1])) == ["T"])
-    report.ob(rule, "ResourceId/new_with_dynamic_id", ok, "from_type_id_and_dynamic_id(TypeId::of::<T>(), dynamic_id)", site=b.loc(), config=config)
-    b = facts.one(A.RESID + "::new")
-    bt = prog.bt(b)
-    ret = bt.local(0)
-    ok = ret[0] == "call" and bt.callee(ret[1]).name == "new_with_dynamic_id" and _type_args(bt.callee(ret[1])) == ["T"] and ret[2] == (("int", 0),)
-    report.ob(rule, "ResourceId/new", ok, "new_with_dynamic_id::<T>(0)", site=b.loc(), config=config)
-    b = facts.one(A.RESID + "::from_type_id")
-    bt = prog.bt(b)
-    ret = bt.local(0)
-    ok = ret[0] == "call" and bt.callee(ret[1]).name == "from_type_id_and_dynamic_id" and ret[2] == (("param", 1), ("int", 0))
-    report.ob(rule, "ResourceId/from_type_id", ok, "from_type_id_and_dynamic_id(type_id, 0)", site=b.loc(), config=config)
+    b, ev, f_ = built(A.RESID + "::new_with_dynamic_id")
+    ok = f_ is not None and is_of(ev, f_.get("type_id"), "T") and f_.get("dynamic_id") == ("param", 1)
+    report.ob(rule, "ResourceId/new_with_dynamic_id", ok, "ResourceId { type_id: TypeId::of::<T>(), dynamic_id }", site=b.loc(), config=config)
+    b, ev, f_ = built(A.RESID + "::new")
+    ok = f_ is not None and is_of(ev, f_.get("type_id"), "T") and f_.get("dynamic_id") == ("int", 0)
+    report.ob(rule, "ResourceId/new", ok, "ResourceId { type_id: TypeId::of::<T>(), dynamic_id: 0 }", site=b.loc(), config=config)
+    b, ev, f_ = built(A.RESID + "::from_type_id")
+    ok = f_ is not None and f_.get("type_id") == ("param", 1) and f_.get("dynamic_id") == ("int", 0)
+    report.ob(rule, "ResourceId/from_type_id", ok, "ResourceId { type_id, dynamic_id: 0 }", site=b.loc(), config=config)
     # equality and hashing are the compiler-derived ones over both fields
     for tr in ("std::cmp::PartialEq", "std::cmp::Eq", "std::hash::Hash"):
         ims = [im for im in facts.impls if im.get("trait") == tr and im.get("self_head") == A.RESID]
@@ -760,11 +800,34 @@ def guard_rules(ctx, report, rule, facts, config):
                 report.ob(rule, "downcast/%s" % b.qname, ok, "%s::<T> on the guard's own cell content" % c.name if ok else
                           "unchecked downcast at an unaudited site or with a type not tied to the guard", site=b.loc(bb), config=config)
     report.floor(rule, "unchecked downcast sites outside res_downcast", seen, 4, config=config)
+    from . import semq as Q
     gm = facts.one(A.WORLD + "::get_mut")
-    bt = prog.bt(gm)
-    ret = bt.local(0)
-    ok = (ret[0] == "call" and bt.callee(ret[1]).name == "map" and ret[2][0][0] == "call" and bt.callee(ret[2][0][1]).name == "get_mut_raw")
-    report.ob(rule, "downcast/get_mut-source", ok, "the unchecked downcast in get_mut is applied to get_mut_raw(ResourceId::new::<T>())", site=gm.loc(), config=config)
+    gmr = facts.one(A.WORLD + "::get_mut_raw")
+    ev, ends = Q.sem(ctx, facts, gm, opaque=[gmr.key, A.RESID + "::new"] + _downcasts(facts))
+    ok = False
+    bad = False
+    for e in ends:
+        if e.kind != "return":
+            continue
+        raws = [x for x in e.path.events if x[0] == "call" and x[2].key == gmr.key]
+        dcs = [x for x in _deep(e.path.events) if x[0] == "call" and x[2].name == "downcast_mut_unchecked"]
+        if len(raws) != 1:
+            bad = True
+            continue
+        found = e.path.variant(raws[0][4])
+        r = e.ret
+        if r[0] == "agg" and r[2] == "std::option::Option::Some":
+            want = ("field", ("variant", raws[0][4], "Some"), "0", "std::option::Option")
+            if not (found == "Some" and len(dcs) == 1 and Q.strip(ev, dcs[0][3][0]) == want and Q.strip(ev, r[3][0]) == dcs[0][4]):
+                bad = True
+            else:
+                ok = True
+        elif r[0] == "agg" and r[2] == "std::option::Option::None":
+            if found != "None" or dcs:
+                bad = True
+        else:
+            bad = True
+    report.ob(rule, "downcast/get_mut-source", ok and not bad, "the unchecked downcast in get_mut is applied to what get_mut_raw(ResourceId::new::<T>()) found, and only then", site=gm.loc(), config=config)
     # Box::from_raw fed by Box::into_raw
     n_from = 0
     for b in sorted(facts.bodies.values(), key=lambda b: b.key):
@@ -781,9 +844,36 @@ def guard_rules(ctx, report, rule, facts, config):
     report.floor(rule, "Box::from_raw sites", n_from, 1, config=config)
     # remove_by_id returns the removed value through the checked downcast
     rb = facts.one(A.WORLD + "::remove_by_id")
-    names = [Callee(t["func"]).name for bb, t in rb.normal_calls()] + [x for c in facts.closures_of(rb) for x in [Callee(t["func"]).name for bb, t in c.normal_calls()]]
-    ok = names[:2] == ["assert_same_type_id", "remove"] and "downcast" in names
-    report.ob(rule, "remove_by_id/chain", ok, "assert, remove(&id), into_inner, checked downcast::<R>()" if ok else "remove_by_id chain is %s" % names, site=rb.loc(), config=config)
+    ast = facts.one(A.RESID + "::assert_same_type_id")
+    ev, ends = Q.sem(ctx, facts, rb, opaque=[ast.key, A.RESID + "::new"] + _downcasts(facts))
+    pr = []
+    n_some = n_none = 0
+    for e in ends:
+        if e.kind != "return":
+            continue
+        deep = [x for x in _deep(e.path.events) if x[0] == "call"]
+        names = [x[2].name for x in deep]
+        if names[:1] != ["assert_same_type_id"]:
+            pr.append("the id is not asserted first")
+        rms = [x for x in deep if x[2].name == "remove" and not x[2].local and _table_recv(ev, x[3][0])]
+        if len(rms) != 1 or Q.strip(ev, rms[0][3][1]) != ("param", 2):
+            pr.append("not exactly one remove(&id) on the table")
+            continue
+        found = e.path.variant(rms[0][4])
+        r = e.ret
+        if r[0] == "agg" and r[2] == "std::option::Option::Some":
+            n_some += 1
+            dc = [x for x in deep if x[2].name in ("downcast",) and x[2].local]
+            if found != "Some" or len(dc) != 1 or "into_inner" not in names:
+                pr.append("the removed value is not returned through the checked downcast")
+        elif r[0] == "agg" and r[2] == "std::option::Option::None":
+            n_none += 1
+            if found != "None":
+                pr.append("None is returned although something was removed")
+        else:
+            pr.append("the result is not decided by the removal")
+    ok = not pr and n_some >= 1 and n_none >= 1
+    report.ob(rule, "remove_by_id/chain", ok, "assert, remove(&id), into_inner, checked downcast::<R>()" if ok else "remove_by_id: %s" % "; ".join(sorted(set(pr)) or ["missing outcome"]), site=rb.loc(), config=config)
 
 
 def prim(ctx, report, rule, facts, config):
